@@ -173,6 +173,14 @@ def counter(ctx):
                 ok = okx and oky
         ctx.ob("R07.6", "read|counter-plus-returned", ok, "in_flight += len(exactly the vector read() returns)", fn.loc(lf.bb))
     ctx.ob("R07.6", "read|floor", n >= 4, "%d Ok paths of read() inspected (floor 4)" % n)
+    # no other write of the counter anywhere in read(), in particular not inside its loops
+    for lf in lv:
+        a = [e for e in lf.events if e[0] == "assign" and e[3] == "(*_1).in_flight_response_count"]
+        for e in a:
+            v = look(e[4])
+            good = v[0] == "payload" and is_call(v[1], "ok_or") and is_call(look(v[1][2][0]), "checked_add")
+            if lf.kind == "loop" or not good:
+                ctx.fail("R07.6", "read|stray-counter-write|%s" % lf.kind, "read() changes the in-flight counter other than by adding the number of requests it returns (%s path): %s" % (lf.kind, term_s(v)[:120]), fn.loc(e[1]))
     fe, le = leaves(ctx, CC + "enqueue_response")
     m = 0
     for lf in le:
@@ -186,7 +194,7 @@ def counter(ctx):
             v = look(a[0][4])
             ok = v[0] == "payload" and is_call(v[1], "ok_or") and is_call(look(v[1][2][0]), "checked_sub") and const_of(look(v[1][2][0])[2][1]) == 1
         ctx.ob("R07.6", "enqueue|counter-minus-one", ok, "every Ok path of enqueue_response decrements in_flight by exactly 1", fe.loc(lf.bb))
-    ctx.ob("R07.6", "enqueue|floor", m >= 2, "%d Ok paths (floor 2: open and Closed)" % m)
+    ctx.ob("R07.6", "enqueue|floor", m >= 1, "%d Ok path(s) of enqueue_response inspected (floor 1)" % m)
     for w in field_writers(facts, srv.CCT, "in_flight_response_count"):
         ctx.ob("R07.6", "writers|%s" % w[0], w[0] in (CC + "read", CC + "enqueue_response", CC + "new"), "writer of in_flight_response_count: %s (%s)" % (w[0], w[3]), w[2])
 
